@@ -45,6 +45,10 @@ func c14Rename(tc *scCase) []scItem {
 				it.U = nm(it.U, it.B)
 			}
 			it.N = nm(it.N, it.Nb)
+		case "assign2":
+			it.U = nm(it.U, it.B)
+			it.N = nm(it.N, it.Nb)
+			it.M = nm(it.M, it.Mb)
 		case "lfunc", "lefunc":
 			it.N = c14Name(it.ID)
 			it.P = c14Name(it.Pid)
@@ -286,6 +290,7 @@ func checkC14(c *Ctx) {
 		"keywords, snippets and built-ins among the labels are ignored (they are not generated names)",
 	}
 	scLight = true
+	scNoOneLine = true
 	if c.Replay != "" {
 		raw, err := loadReplayCase(c.Replay)
 		if err != nil {
